@@ -6,11 +6,8 @@ package c03
 import (
 	"fmt"
 	"go/ast"
-	"go/constant"
 	"go/token"
 	"go/types"
-	"sort"
-	"strings"
 
 	"golang.org/x/tools/go/cfg"
 
@@ -25,11 +22,11 @@ var Def = driver.PropDef{
 	Explanation: "Structural necessary conditions of the parser/sender pair of redis-shake/dbSync, checked on every path: " +
 		"R1 single FIFO (ds.sendBuf created once before the goroutines start; only parseSourceCommand sends, only sendTargetCommand receives; one go statement each); " +
 		"R2 one enqueue per surviving command (no iteration of the parser loop ends without an enqueue or the filter counter; no path enqueues twice); " +
-		"R3 nothing dropped or duplicated in the sender (dequeued item appended once unless it is a source MULTI/EXEC marker, markers never cached; sendFunc sends the whole batch by one range with Send(item.Cmd, item.Args...) once per item, flushes, and empties the batch only after it was sent and on every path); " +
+		"R3 nothing dropped or duplicated in the sender (dequeued item appended once unless it is a source MULTI/EXEC marker, markers never cached; sendFunc sends the whole batch by one range with Send(item.Cmd, item.Args...) once per item without leaving the loop early, flushes, and empties the batch only after it was sent and on every path); " +
 		"R4 barrier before append (after barrierStatus reports flush, sendFunc() runs before the barrier command is cached); " +
 		"R5 barrier automaton (barrierMap + barrierStatus evaluated on 5 states x {select,multi,exec,other} and the illegal state against the reference table; ParseArgs lower-cases the command name the table is keyed by); " +
 		"R6 payload identity (Cmd/Args/Db of every enqueue flow from ParseArgs / HandleFilterKeyWithCommand / the parsed SELECT argument or target.db; start database enqueued first; fixed target database really selected); " +
-		"R7 filter polarity (the filter counter is reachable only through a positive filter verdict); " +
+		"R7 filter polarity (the filter counter is reachable only through a positive filter verdict, and a command counted as filtered is not enqueued afterwards); " +
 		"R8 ticker flush (a constant-period ticker arm exists and, once it requests a flush, sendFunc() runs before the next select).",
 	NotDecided: "the delay bound itself, back-pressure of Send, interleavings with the target-reply reader, byte equality of arguments beyond the dataflow shape; the flush aspects of R4/R5 are necessary for C04 (one database per batch) and only reported as UNDECIDED here when they deviate.",
 	Trusted:    []string{"go/parser, go/types, go/cfg (x/tools v0.29.0)", "Go channel FIFO semantics", "redigo Conn.Send/Flush preserve call order on one connection"},
@@ -57,11 +54,11 @@ func Run(c *core.Ctx) {
 	Automaton(c, "R5.automaton", false)
 	c.Expect("R1.fifo", 8)
 	c.Expect("R2.enqueue", 4)
-	c.Expect("R3.sender", 10)
+	c.Expect("R3.sender", 14)
 	c.Expect("R4.barrier", 2)
 	c.Expect("R5.automaton", 22)
 	c.Expect("R6.payload", 8)
-	c.Expect("R7.polarity", 6)
+	c.Expect("R7.polarity", 4)
 	c.Expect("R8.ticker", 3)
 }
 
@@ -270,11 +267,21 @@ func r3(c *core.Ctx, s *Sender) {
 			}
 		}
 		// (a) the dequeued item is cached unless the state says it is a MULTI/EXEC marker
+		inGraph := 0
+		for _, a := range s.Appends {
+			if _, ok := s.G.Find(a); ok {
+				inGraph++
+			}
+		}
 		w := s.G.Path(cfgq.Query{From: cfgq.Point{B: s.RecvBody, I: 0}, Avoid: s.IsAppend,
 			AvoidEdge: s.Fl.Edge(func(ft cfgq.Fact) bool { return isHold(holdS, true)(ft) || isHold(holdE, true)(ft) }),
-			Target: s.IsRecv, TargetExit: cfgq.NormalExit})
-		c.Check(rule, "append-unless-marker", s.RecvComm.Pos(), w == nil,
-			"a command taken from ds.sendBuf must be appended to the batch on every path except those on which the barrier state is HoldStart/HoldEnd (source MULTI/EXEC); on this path a real command is discarded", w...)
+			Target:    s.IsRecv, TargetExit: cfgq.NormalExit})
+		if inGraph != len(s.Appends) {
+			c.Undecidedf(rule, "append-unless-marker", s.RecvComm.Pos(), "the batch is appended to inside a closure; paths of the receive arm cannot be judged")
+		} else {
+			c.Check(rule, "append-unless-marker", s.RecvComm.Pos(), w == nil,
+				"a command taken from ds.sendBuf must be appended to the batch on every path except those on which the barrier state is HoldStart/HoldEnd (source MULTI/EXEC); on this path a real command is discarded", w...)
+		}
 		// markers are never cached
 		for _, k := range []struct {
 			k    *types.Const
@@ -327,7 +334,14 @@ func r3(c *core.Ctx, s *Sender) {
 	case *ast.Ident:
 		c.Okf(rule, "range-whole-batch", s.Range.Pos(), "sendFunc ranges over the whole batch in index order")
 	case *ast.SliceExpr:
-		if IsObj(info, s.Tunnel)(x.X) && (x.Low != nil || x.High != nil) {
+		lowOK := x.Low == nil
+		if v, isC := core.IntConst(info, x.Low); x.Low != nil && isC && v == 0 {
+			lowOK = true
+		}
+		highOK := x.High == nil || pat.Expr("len(_t)").Match(info, x.High, pat.Binds{"_t": x.X}) != nil
+		if IsObj(info, s.Tunnel)(x.X) && lowOK && highOK {
+			c.Okf(rule, "range-whole-batch", s.Range.Pos(), "sendFunc ranges over the whole batch in index order")
+		} else if IsObj(info, s.Tunnel)(x.X) {
 			c.Failf(rule, "range-whole-batch", s.Range.Pos(), "sendFunc ranges over `%s`: the commands outside that window are never sent but are cleared with the batch", c.Src(x))
 		} else {
 			c.Undecidedf(rule, "range-whole-batch", s.Range.Pos(), "unknown ranged expression `%s`", c.Src(x))
@@ -335,8 +349,31 @@ func r3(c *core.Ctx, s *Sender) {
 	default:
 		c.Undecidedf(rule, "range-whole-batch", s.Range.Pos(), "unknown ranged expression `%s`", c.Src(s.Range.X))
 	}
-	c.Check(rule, "one-send-per-item", s.Range.Pos(), len(s.Data) == 1,
-		fmt.Sprintf("the range body must contain exactly one conn.Send (found %d): each extra Send applies every command of the batch once more on the target", len(s.Data)))
+	var rbody, rhead *cfg.Block
+	for _, b := range s.LG.CFG.Blocks {
+		if b.Stmt == ast.Stmt(s.Range) && b.Kind == cfg.KindRangeBody {
+			rbody = b
+		}
+		if b.Stmt == ast.Stmt(s.Range) && b.Kind == cfg.KindRangeLoop {
+			rhead = b
+		}
+	}
+	twice := false
+	for _, d := range s.Data { // a second Send reachable from a first within one iteration
+		dp, ok := s.LG.Find(d)
+		if !ok || rhead == nil {
+			continue
+		}
+		reach := BlocksFrom(dp, true, nil, rhead)
+		for _, e := range s.Data {
+			ep, ok := s.LG.Find(e)
+			if ok && (reach[ep.B] || ep.B == dp.B && ep.I > dp.I) {
+				twice = true
+			}
+		}
+	}
+	c.Check(rule, "one-send-per-item", s.Range.Pos(), !twice,
+		fmt.Sprintf("within one iteration over the batch at most one conn.Send may execute (%d Send sites, one reachable from another): each extra Send applies every command of the batch once more on the target", len(s.Data)))
 	call := s.Data[0]
 	okArgs := len(call.Args) == 2 && call.Ellipsis.IsValid() &&
 		isFieldOf(info, call.Args[0], s.ItemVar, "Cmd") && isFieldOf(info, call.Args[1], s.ItemVar, "Args")
@@ -349,18 +386,18 @@ func r3(c *core.Ctx, s *Sender) {
 	}
 	if dp, ok := s.LG.Find(call); ok {
 		// every iteration executes the Send: the loop head is not reachable from the body start without it
-		var body, head *cfg.Block
-		for _, b := range s.LG.CFG.Blocks {
-			if b.Stmt == ast.Stmt(s.Range) && b.Kind == cfg.KindRangeBody {
-				body = b
+		body, head := rbody, rhead
+		isData := func(n ast.Node) bool {
+			for _, d := range s.Data {
+				if p, ok := s.LG.Find(d); ok && p.Node() == n {
+					return true
+				}
 			}
-			if b.Stmt == ast.Stmt(s.Range) && b.Kind == cfg.KindRangeLoop {
-				head = b
-			}
+			return false
 		}
-		dn := dp.Node()
+		_ = dp
 		if body != nil && head != nil {
-			reach := BlocksFrom(cfgq.Point{B: body, I: 0}, false, func(n ast.Node) bool { return n == dn })
+			reach := BlocksFrom(cfgq.Point{B: body, I: 0}, false, isData)
 			skipped := reach[head]
 			for _, b := range s.LG.CFG.Blocks { // leaving the loop early (break/return) also skips the rest of the batch
 				if reach[b] && b.Kind == cfg.KindRangeDone && b.Stmt == ast.Stmt(s.Range) {
@@ -368,6 +405,14 @@ func r3(c *core.Ctx, s *Sender) {
 				}
 			}
 			c.Check(rule, "send-each-item", call.Pos(), !skipped, "every iteration over the batch must execute the Send: on some path an item is skipped and then cleared with the batch (command lost)")
+			// the loop is left only through its head (no break / return after a partial batch)
+			early := false
+			for b := range BlocksFrom(cfgq.Point{B: body, I: 0}, false, nil, head) {
+				if b.Kind == cfg.KindRangeDone && b.Stmt == ast.Stmt(s.Range) || s.LG.Exit(b) == cfgq.ExitRet {
+					early = true
+				}
+			}
+			c.Check(rule, "send-whole-batch", s.Range.Pos(), !early, "the loop over the batch must not be left by break/return: the remaining commands are never sent but are cleared with the batch")
 		}
 	}
 	// (d) clearing and flushing
@@ -390,12 +435,33 @@ func r3(c *core.Ctx, s *Sender) {
 		c.Check(rule, fmt.Sprintf("clear-after-send#%d", i+1), as.Pos(), dom,
 			"the batch may be emptied only after the range that sends it: here it can be emptied first, so its commands are never sent", w...)
 	}
+	inLit := func(n ast.Node) bool { return s.Lit.Pos() <= n.Pos() && n.End() <= s.Lit.End() }
+	truncElsewhere, flushElsewhere := false, false
+	core.InspectAll(s.Fn.Decl.Body, func(n ast.Node) bool {
+		if as, ok := n.(*ast.AssignStmt); ok && isTrunc(as) && as.Tok != token.DEFINE && !inLit(as) {
+			truncElsewhere = true
+		}
+		if call, ok := n.(*ast.CallExpr); ok && !inLit(call) {
+			if _, ok := ConnMethod(info, call, "Flush"); ok {
+				flushElsewhere = true
+			}
+		}
+		return true
+	})
 	w := s.LG.Path(cfgq.Query{From: s.RangePt, After: true, Avoid: isTrunc, TargetExit: cfgq.NormalExit})
-	c.Check(rule, "clear-on-every-path", s.Range.Pos(), w == nil && len(truncs) > 0,
-		"after the batch was sent every path to the end of sendFunc must empty it: otherwise the same commands are sent again with the next batch", w...)
+	if w != nil && truncElsewhere {
+		c.Undecidedf(rule, "clear-on-every-path", s.Range.Pos(), "the batch is emptied outside sendFunc; the rule only follows the closure")
+	} else {
+		c.Check(rule, "clear-on-every-path", s.Range.Pos(), w == nil && len(truncs) > 0,
+			"after the batch was sent every path to the end of sendFunc must empty it: otherwise the same commands are sent again with the next batch", w...)
+	}
 	w = s.LG.Path(cfgq.Query{From: s.RangePt, After: true, Avoid: IsFlush(info), TargetExit: cfgq.NormalExit})
-	c.Check(rule, "flush-after-send", s.Range.Pos(), w == nil,
-		"after the batch was handed to conn.Send every path must Flush before returning: otherwise small batches stay in the client buffer while the stream is idle", w...)
+	if w != nil && flushElsewhere {
+		c.Undecidedf(rule, "flush-after-send", s.Range.Pos(), "the connection is flushed outside sendFunc; the rule only follows the closure")
+	} else {
+		c.Check(rule, "flush-after-send", s.Range.Pos(), w == nil,
+			"after the batch was handed to conn.Send every path must Flush before returning: otherwise small batches stay in the client buffer while the stream is idle", w...)
+	}
 	// other writers of the batch
 	core.InspectAll(s.Fn.Decl.Body, func(n ast.Node) bool {
 		switch x := n.(type) {
@@ -438,797 +504,6 @@ func pkgConst(c *core.Ctx, name string) *types.Const {
 }
 
 // ---------------------------------------------------------------------------
-// R4 barrier before append (strict: deviations are failures; otherwise UNDECIDED)
-
-func BarrierBeforeAppend(c *core.Ctx, s *Sender, rule string, strict bool) {
-	info := s.Info
-	yes, no := pkgConst(c, "flushStatusYes"), pkgConst(c, "flushStatusNo")
-	if s.Barrier == nil || yes == nil || no == nil || s.Fs == nil {
-		c.Undecidedf(rule, "shape", s.Fn.Decl.Pos(), "no `state, flush = barrierStatus(item.Cmd, state)` in sendTargetCommand, or the flush constants are missing")
-		return
-	}
-	call := ast.Unparen(s.Barrier.Rhs[0]).(*ast.CallExpr)
-	okArgs := len(call.Args) == 2 && isFieldOf(info, call.Args[0], s.Item, "Cmd") && IsObj(info, s.Bs)(call.Args[1])
-	if okArgs {
-		c.Okf(rule, "automaton-input", call.Pos(), "barrierStatus is fed the received command's name and the previous state, and its result becomes the state")
-	} else {
-		c.Undecidedf(rule, "automaton-input", call.Pos(), "`%s` does not thread (item.Cmd, previous state) through barrierStatus", c.Src(s.Barrier))
-	}
-	noFlush := func(ft cfgq.Fact) bool {
-		if eq, ok := EqFact(ft, IsObj(info, s.Fs), IsConstVal(info, yes)); ok && !eq {
-			return true
-		}
-		eq, ok := EqFact(ft, IsObj(info, s.Fs), IsConstVal(info, no))
-		return ok && eq
-	}
-	fsWrite := func(n ast.Node) bool {
-		as, ok := n.(*ast.AssignStmt)
-		if !ok || n == ast.Node(s.Barrier) {
-			return false
-		}
-		for _, l := range as.Lhs {
-			if IsObj(info, s.Fs)(l) {
-				return true
-			}
-		}
-		return false
-	}
-	flushed := cfgq.Or(IsCallTo(info, s.SendFunc), s.IsRecv)
-	var tests []*cfg.Block // branches on the flush variable
-	for _, b := range s.G.CFG.Blocks {
-		if !b.Live || len(b.Succs) != 2 {
-			continue
-		}
-		hit := false
-		for si := range b.Succs {
-			for _, ft := range s.Fl.Facts(b, si) {
-				hit = hit || core.Mentions(info, ft.Expr, s.Fs)
-			}
-		}
-		if cond := cfgq.CondOf(b); hit || cond != nil && core.Mentions(info, cond, s.Fs) {
-			tests = append(tests, b)
-		}
-	}
-	isTestEdge := func(b *cfg.Block, i int) bool {
-		for _, t := range tests {
-			if t == b {
-				return true
-			}
-		}
-		return false
-	}
-	for i, a := range s.Appends {
-		pt, ok := s.G.Find(a)
-		if !ok {
-			continue
-		}
-		tn := pt.Node()
-		toAppend := func(n ast.Node) bool { return n == tn }
-		detail := "when barrierStatus reports a flush (SELECT/MULTI/EXEC), sendFunc() must run before the barrier command itself is cached: otherwise one batch spans a SELECT and its checkpoint is stored in only one of the databases its commands ran in"
-		key := fmt.Sprintf("flush-before-append#%d", i+1)
-		// definite: the flush status is tested unmodified, the flush edge is taken, and the append is reached without sendFunc()
-		var bad []string
-		for _, t := range tests {
-			cn := t.Nodes[len(t.Nodes)-1]
-			p1 := s.G.Path(cfgq.Query{From: s.BarrierPt, After: true, Avoid: cfgq.Or(flushed, fsWrite), Target: func(n ast.Node) bool { return n == cn }})
-			if p1 == nil {
-				continue
-			}
-			for si, succ := range t.Succs {
-				if s.Fl.Edge(noFlush)(t, si) {
-					continue
-				}
-				if p2 := s.G.Path(cfgq.Query{From: cfgq.Point{B: succ, I: 0}, Avoid: flushed, AvoidEdge: s.Fl.Edge(noFlush), Target: toAppend}); p2 != nil {
-					bad = append(append([]string{}, p1...), p2...)
-				}
-			}
-		}
-		if bad == nil { // or the append is reached without consulting the flush status at all
-			bad = s.G.Path(cfgq.Query{From: s.BarrierPt, After: true, Avoid: flushed, AvoidEdge: isTestEdge, Target: toAppend})
-		}
-		any := s.G.Path(cfgq.Query{From: s.BarrierPt, After: true, Avoid: flushed, AvoidEdge: s.Fl.Edge(noFlush), Target: toAppend})
-		switch {
-		case bad == nil && any == nil:
-			c.Okf(rule, key, a.Pos(), "the append is reachable from the barrier test only through sendFunc() or a no-flush edge")
-		case bad != nil && strict:
-			c.Check(rule, key, a.Pos(), false, detail, bad...)
-		default:
-			c.Undecidedf(rule, key, a.Pos(), "%s (not a necessary condition of this property by itself, or the flush variable is rewritten before its test; decided under C04.R3)", detail)
-		}
-	}
-}
-
-// ---------------------------------------------------------------------------
-// R5 automaton
-
-// Automaton evaluates barrierStatus over all states and command classes.
-func Automaton(c *core.Ctx, rule string, strict bool) {
-	fn := c.Func(DbSync, "", "barrierStatus")
-	pk := c.Pkg(DbSync)
-	if fn == nil || pk == nil {
-		return
-	}
-	bm := pk.Types.Scope().Lookup("barrierMap")
-	m, lit := MapLiteral(c, DbSync, bm)
-	if m == nil {
-		c.Undecidedf(rule, "barrierMap", fn.Decl.Pos(), "barrierMap is not a map[string]string literal with distinct constant entries")
-		return
-	}
-	names := []string{"barrierStatusNo", "barrierStatusAdd", "barrierStatusHoldStart", "barrierStatusHolding", "barrierStatusHoldEnd"}
-	st := map[string]string{}
-	for _, n := range names {
-		k := pkgConst(c, n)
-		if k == nil || k.Val().Kind() != constant.String {
-			c.Undecidedf(rule, "states", fn.Decl.Pos(), "state constant %s not found", n)
-			return
-		}
-		st[n] = constant.StringVal(k.Val())
-	}
-	yes, no := pkgConst(c, "flushStatusYes"), pkgConst(c, "flushStatusNo")
-	if yes == nil || no == nil {
-		c.Undecidedf(rule, "states", fn.Decl.Pos(), "flush constants not found")
-		return
-	}
-	name := func(v string) string {
-		for _, n := range names {
-			if st[n] == v {
-				return strings.TrimPrefix(n, "barrierStatus")
-			}
-		}
-		return fmt.Sprintf("%q", v)
-	}
-	No, Add, HS, Hg, HE := st[names[0]], st[names[1]], st[names[2]], st[names[3]], st[names[4]]
-	cmds := []string{"select", "multi", "exec"}
-	for k := range m {
-		if k != "select" && k != "multi" && k != "exec" {
-			cmds = append(cmds, k)
-		}
-	}
-	sort.Strings(cmds[3:])
-	cmds = append(cmds, "\x00other")
-	globals := map[types.Object]ival{bm: {m: m}}
-	type cell struct {
-		next  string
-		flush bool
-		panic bool
-	}
-	run := func(state, cmd string) (cell, error) {
-		res, pan, err := evalTable(c, fn, []constant.Value{constant.MakeString(cmd), constant.MakeString(state)}, globals)
-		if err != nil {
-			return cell{}, err
-		}
-		if pan {
-			return cell{panic: true}, nil
-		}
-		if len(res) != 2 || res[0].Kind() != constant.String {
-			return cell{}, fmt.Errorf("unexpected result arity")
-		}
-		f := constant.Compare(res[1], token.EQL, yes.Val())
-		if !f && !constant.Compare(res[1], token.EQL, no.Val()) {
-			return cell{}, fmt.Errorf("flush result is neither flushStatusYes nor flushStatusNo")
-		}
-		return cell{next: constant.StringVal(res[0]), flush: f}, nil
-	}
-	dropped := func(next string) bool { return next == HS || next == HE }
-	for _, sn := range names {
-		state := st[sn]
-		hold := state == HS || state == Hg
-		for _, cmd := range cmds {
-			label := cmd
-			if cmd == "\x00other" {
-				label = "other"
-			}
-			key := strings.TrimPrefix(sn, "barrierStatus") + "/" + label
-			got, err := run(state, cmd)
-			if err != nil {
-				c.Undecidedf(rule, key, fn.Decl.Pos(), "barrierStatus is outside the evaluable subset: %v", err)
-				continue
-			}
-			var ref cell
-			switch {
-			case hold && cmd == "exec":
-				ref = cell{next: HE, flush: true}
-			case hold:
-				ref = cell{next: Hg}
-			case cmd == "select":
-				ref = cell{next: Add, flush: true}
-			case cmd == "multi":
-				ref = cell{next: HS, flush: true}
-			case cmd == "exec":
-				ref = cell{next: HE, flush: true}
-			default:
-				ref = cell{next: No}
-			}
-			show := func(x cell) string {
-				if x.panic {
-					return "panic"
-				}
-				return fmt.Sprintf("(%s, flush=%v)", name(x.next), x.flush)
-			}
-			if got == ref {
-				c.Okf(rule, key, fn.Decl.Pos(), "%s -> %s", key, show(got))
-				continue
-			}
-			pos := fn.Decl.Pos()
-			if lit != nil {
-				pos = lit.Pos()
-			}
-			marker := cmd == "multi" && !hold || cmd == "exec"
-			switch {
-			case got.panic && !(cmd == "exec" && !hold):
-				c.Failf(rule, key, pos, "state %s, command %s: barrierStatus panics on a stream every master can emit (reference %s)", name(state), label, show(ref))
-			case marker && !got.panic && !dropped(got.next) && !(cmd == "exec" && !hold):
-				c.Failf(rule, key, pos, "state %s, command %s: next state %s is not a marker state, so the sender caches the source's %s and forwards it to the target (reference %s)", name(state), label, name(got.next), strings.ToUpper(label), show(ref))
-			case !marker && !got.panic && dropped(got.next):
-				c.Failf(rule, key, pos, "state %s, command %s: next state %s makes the sender discard the command although it is not a MULTI/EXEC marker (reference %s)", name(state), label, name(got.next), show(ref))
-			case strict && !hold && cmd == "select" && !got.panic && !got.flush:
-				c.Failf(rule, key, pos, "state %s, command select: no flush is requested, so one batch (and its single checkpoint) spans two databases (reference %s)", name(state), show(ref))
-			default:
-				c.Undecidedf(rule, key, pos, "state %s, command %s: got %s, reference %s; the difference concerns batching or a stream no master emits and is not judged here", name(state), label, show(got), show(ref))
-			}
-		}
-	}
-	// illegal state
-	got, err := run("\x00illegal", "\x00other")
-	switch {
-	case err != nil:
-		c.Undecidedf(rule, "illegal-state", fn.Decl.Pos(), "barrierStatus is outside the evaluable subset: %v", err)
-	case got.panic:
-		c.Okf(rule, "illegal-state", fn.Decl.Pos(), "an unknown state panics")
-	default:
-		c.Undecidedf(rule, "illegal-state", fn.Decl.Pos(), "an unknown state is accepted silently (reference: panic)")
-	}
-	// the table is keyed by lower-case names: ParseArgs must lower-case the command
-	pa := c.Func("pkg/redis", "", "ParseArgs")
-	if pa == nil {
-		return
-	}
-	pinfo := pa.Pkg.TypesInfo
-	var res0 *ast.Ident
-	if r := pa.Decl.Type.Results; r != nil && len(r.List) > 0 && len(r.List[0].Names) > 0 {
-		res0 = r.List[0].Names[0]
-	}
-	if res0 == nil {
-		c.Undecidedf(rule, "lower-case/ParseArgs", pa.Decl.Pos(), "ParseArgs has no named command result")
-		return
-	}
-	g := cfgq.Of(c.Program, pa)
-	isLower := func(n ast.Node) bool {
-		return pat.Stmt("_cmd = strings.ToLower(_x)").Match(pinfo, n, pat.Binds{"_cmd": res0}) != nil
-	}
-	w := g.Path(cfgq.Query{From: g.Entry(), Avoid: isLower, TargetExit: func(b *cfg.Block, k cfgq.ExitKind) bool {
-		if k != cfgq.ExitRet {
-			return k == cfgq.ExitFall
-		}
-		ret := b.Nodes[len(b.Nodes)-1].(*ast.ReturnStmt)
-		if len(ret.Results) == 0 {
-			return true
-		}
-		return core.IsNil(pinfo, ret.Results[len(ret.Results)-1]) && pat.Same(pinfo, ret.Results[0], res0)
-	}})
-	c.Check(rule, "lower-case/ParseArgs", pa.Decl.Pos(), w == nil,
-		"ParseArgs must lower-case the command name on every successful return: the master emits SELECT/MULTI/EXEC in upper case and barrierMap/the parser match lower-case names, so otherwise MULTI/EXEC are forwarded and SELECT is not tracked", w...)
-}
-
-// ---------------------------------------------------------------------------
-// R6 payload identity
-
-// DecimalOf recognises "decimal text of integer expression E" and returns E.
-func DecimalOf(info *types.Info, scope ast.Node, e ast.Expr) ast.Expr {
-	for depth := 0; depth < 6; depth++ {
-		o, ok := SoleOrigin(info, scope, e)
-		if !ok || o.Expr == nil || o.Res > 0 || o.Range || o.Op != 0 {
-			return nil
-		}
-		call, ok := ast.Unparen(o.Expr).(*ast.CallExpr)
-		if !ok {
-			return nil
-		}
-		f := core.CalleeFunc(info, call)
-		switch {
-		case core.IsFunc(f, Common, "", "String2Bytes") && len(call.Args) == 1:
-			e = call.Args[0]
-		case core.IsFunc(f, "strconv", "", "FormatInt") && len(call.Args) == 2:
-			if b, ok := core.IntConst(info, call.Args[1]); !ok || b != 10 {
-				return nil
-			}
-			return stripConv(info, call.Args[0])
-		case core.IsFunc(f, "strconv", "", "Itoa") && len(call.Args) == 1:
-			return stripConv(info, call.Args[0])
-		case core.IsFunc(f, "fmt", "", "Sprintf") && len(call.Args) == 2:
-			if s, ok := core.StringConst(info, call.Args[0]); !ok || s != "%d" && s != "%v" {
-				return nil
-			}
-			return stripConv(info, call.Args[1])
-		case core.IsFunc(f, "fmt", "", "Sprint") && len(call.Args) == 1:
-			return stripConv(info, call.Args[0])
-		default:
-			return nil
-		}
-	}
-	return nil
-}
-
-func stripConv(info *types.Info, e ast.Expr) ast.Expr {
-	for {
-		e = ast.Unparen(e)
-		call, ok := e.(*ast.CallExpr)
-		if !ok || len(call.Args) != 1 {
-			return e
-		}
-		if tv, ok := info.Types[call.Fun]; !ok || !tv.IsType() {
-			return e
-		}
-		e = call.Args[0]
-	}
-}
-
-func isTargetDB(info *types.Info, e ast.Expr) bool {
-	return core.IsFieldNamed(info, e, "Configuration", "TargetDB")
-}
-
-// selectArg returns the integer expression whose decimal text is the single
-// argument of an enqueued SELECT.
-func selectArg(info *types.Info, scope ast.Node, args ast.Expr) ast.Expr {
-	lit, ok := ast.Unparen(args).(*ast.CompositeLit)
-	if !ok || len(lit.Elts) != 1 {
-		return nil
-	}
-	return DecimalOf(info, scope, lit.Elts[0])
-}
-
-func r6(c *core.Ctx, p *Parser) {
-	const rule = "R6.payload"
-	info := p.Info
-	body := p.Fn.Decl.Body
-	idx := map[string]int{}
-	for _, e := range p.Sends {
-		idx[e.Name]++
-		key := fmt.Sprintf("%s#%d", e.Name, idx[e.Name])
-		switch e.Name {
-		case "command":
-			// Cmd: first result of ParseArgs(resp); Args: element-wise copy of HandleFilterKeyWithCommand(cmd, argv)[0]
-			var pa *ast.CallExpr
-			okCmd := false
-			if o, ok := SoleOrigin(info, body, e.Field["Cmd"]); ok {
-				if call, ok := CallOrigin(info, o, "pkg/redis", "", "ParseArgs", 0); ok && len(call.Args) == 1 && IsObj(info, p.Resp)(call.Args[0]) {
-					pa, okCmd = call, true
-				}
-			}
-			if okCmd {
-				c.Okf(rule, key+"/cmd", e.Stmt.Pos(), "Cmd is the command name parsed from the response decoded in this iteration")
-			} else if v, isConst := core.StringConst(info, e.Field["Cmd"]); isConst {
-				c.Failf(rule, key+"/cmd", e.Stmt.Pos(), "every source command is forwarded under the fixed name %q", v)
-			} else {
-				c.Undecidedf(rule, key+"/cmd", e.Stmt.Pos(), "cannot trace Cmd `%s` to ParseArgs(resp)", c.Src(e.Field["Cmd"]))
-			}
-			checkArgs(c, p, e, key, pa)
-			if lastDb := dbVar(info, e.Field["Db"]); lastDb != nil {
-				checkLastDb(c, p, key, lastDb)
-			} else {
-				c.Undecidedf(rule, key+"/db", e.Stmt.Pos(), "Db `%s` is not a local variable", c.Src(e.Field["Db"]))
-			}
-		case "start-db":
-			// handled by StartDb below
-		case "select":
-			arg := selectArg(info, body, e.Field["Args"])
-			db := e.Field["Db"]
-			switch {
-			case arg == nil:
-				c.Undecidedf(rule, key+"/arg-is-db", e.Stmt.Pos(), "cannot read the SELECT argument `%s` as the decimal text of an integer", c.Src(e.Field["Args"]))
-			case pat.Same(info, arg, db) || isTargetDB(info, arg) && isTargetDB(info, db):
-				c.Okf(rule, key+"/arg-is-db", e.Stmt.Pos(), "the SELECT argument and the Db tag are the same value")
-			default:
-				c.Undecidedf(rule, key+"/arg-is-db", e.Stmt.Pos(), "SELECT argument `%s` and Db tag `%s` are different expressions", c.Src(arg), c.Src(db))
-			}
-			fixedTargetDb(c, p, e, rule, key)
-		}
-	}
-	StartDb(c, p, rule)
-}
-
-// StartDb checks that the resumed start database is enqueued first (also used by C04.R5).
-func StartDb(c *core.Ctx, p *Parser, rule string) {
-	n := 0
-	for _, e := range p.Sends {
-		if e.Name == "start-db" {
-			n++
-			startDb(c, p, e, rule, fmt.Sprintf("start-db#%d", n))
-		}
-	}
-	if n == 0 {
-		if len(FieldWrites(c, Syncer, "startDbId")) > 0 {
-			c.Failf(rule, "start-db", p.Fn.Decl.Pos(), "Sync records the checkpoint's database in ds.startDbId but parseSourceCommand never enqueues a SELECT for it: after PSYNC CONTINUE the stream carries no SELECT of its own, so the resumed commands run in database 0")
-		} else {
-			c.Undecidedf(rule, "start-db", p.Fn.Decl.Pos(), "no start-database SELECT before the parser loop")
-		}
-	}
-}
-
-func dbVar(info *types.Info, e ast.Expr) *types.Var {
-	id, ok := ast.Unparen(e).(*ast.Ident)
-	if !ok {
-		return nil
-	}
-	v, _ := core.ObjOf(info, id).(*types.Var)
-	return v
-}
-
-func checkArgs(c *core.Ctx, p *Parser, e *Enq, key string, pa *ast.CallExpr) {
-	const rule = "R6.payload"
-	info := p.Info
-	body := p.Fn.Decl.Body
-	k := key + "/args"
-	und := func(format string, a ...interface{}) { c.Undecidedf(rule, k, e.Stmt.Pos(), format, a...) }
-	id, ok := ast.Unparen(e.Field["Args"]).(*ast.Ident)
-	if !ok {
-		und("Args `%s` is not a local slice", c.Src(e.Field["Args"]))
-		return
-	}
-	var src ast.Expr
-	for _, o := range Origins(info, body, id) {
-		call, _ := ast.Unparen(o.Expr).(*ast.CallExpr)
-		bi, _ := core.Callee(info, call).(*types.Builtin)
-		switch {
-		case call != nil && bi != nil && bi.Name() == "make":
-			n, ok := int64(-1), false
-			if len(call.Args) >= 2 {
-				n, ok = core.IntConst(info, call.Args[1])
-			}
-			if !ok || n != 0 {
-				c.Failf(rule, k, call.Pos(), "`%s` starts the argument list with nil elements before the copied ones: the forwarded command has extra arguments", c.Src(call))
-				return
-			}
-		case call != nil && bi != nil && bi.Name() == "append" && len(call.Args) == 2 && !call.Ellipsis.IsValid() && pat.Same(info, call.Args[0], id):
-			ro, ok := SoleOrigin(info, body, call.Args[1])
-			if !ok || !ro.Range || ro.Res != 1 {
-				und("appended element `%s` is not the value of a range loop", c.Src(call.Args[1]))
-				return
-			}
-			rs := ro.Stmt.(*ast.RangeStmt)
-			if !(rs.Pos() <= call.Pos() && call.End() <= rs.End()) {
-				und("append outside the range that binds its element")
-				return
-			}
-			// one append per element, executed on every iteration
-			n := 0
-			for _, st := range rs.Body.List {
-				if as, ok := st.(*ast.AssignStmt); ok && len(as.Rhs) == 1 && ast.Unparen(as.Rhs[0]) == ast.Expr(call) {
-					n++
-				}
-			}
-			if n != 1 {
-				und("the append is not a top-level statement of the range body")
-				return
-			}
-			src = rs.X
-		default:
-			und("unexpected definition of the argument slice: `%s`", c.Src(o.Stmt))
-			return
-		}
-	}
-	if src == nil {
-		c.Failf(rule, k, e.Stmt.Pos(), "the argument slice is never filled: every command is forwarded without arguments")
-		return
-	}
-	o, ok := SoleOrigin(info, body, src)
-	if !ok {
-		und("cannot trace the copied slice `%s`", c.Src(src))
-		return
-	}
-	if call, ok := CallOrigin(info, o, "redis-shake/filter", "", "HandleFilterKeyWithCommand", 0); ok && len(call.Args) == 2 {
-		// its inputs are the command and arguments of the same ParseArgs call
-		good := pa != nil
-		for i, a := range call.Args {
-			ao, ok := SoleOrigin(info, body, a)
-			if !ok || ast.Unparen(ao.Expr) != ast.Expr(pa) || ao.Res != i {
-				good = false
-			}
-		}
-		if good {
-			c.Okf(rule, k, e.Stmt.Pos(), "Args is an element-wise copy of HandleFilterKeyWithCommand(cmd, argv) of this iteration's command")
-		} else {
-			und("HandleFilterKeyWithCommand is not applied to (cmd, argv) of this iteration's ParseArgs")
-		}
-		return
-	}
-	if call, ok := CallOrigin(info, o, "pkg/redis", "", "ParseArgs", 1); ok && call == pa {
-		c.Failf(rule, k, e.Stmt.Pos(), "Args copies the unfiltered argument list: keys removed by the key filter are forwarded to the target")
-		return
-	}
-	und("the copied slice `%s` does not come from HandleFilterKeyWithCommand", c.Src(src))
-}
-
-// checkLastDb: every definition of the Db variable is -1, the parsed SELECT argument or target.db.
-func checkLastDb(c *core.Ctx, p *Parser, key string, v *types.Var) {
-	const rule = "R6.payload"
-	info := p.Info
-	body := p.Fn.Decl.Body
-	n := 0
-	var ref ast.Expr
-	core.Inspect(body, func(m ast.Node) bool {
-		if x, ok := m.(*ast.Ident); ok && ref == nil && core.ObjOf(info, x) == types.Object(v) {
-			ref = x
-		}
-		return true
-	})
-	for _, o := range Origins(info, body, ref) {
-		n++
-		k := fmt.Sprintf("%s/db-source#%d", key, n)
-		pos := token.NoPos
-		if o.Stmt != nil {
-			pos = o.Stmt.Pos()
-		}
-		switch {
-		case o.Zero:
-			c.Okf(rule, k, pos, "zero value")
-		case o.Op != 0 || o.Range || o.Res > 0:
-			c.Failf(rule, k, pos, "the database tag is changed by `%s`, not taken from a SELECT: commands are tagged with a database the source never selected", c.Src(o.Stmt))
-		case isTargetDB(info, o.Expr):
-			c.Okf(rule, k, pos, "conf.Options.TargetDB")
-		default:
-			if _, isConst := core.IntConst(info, o.Expr); isConst && o.Stmt != nil {
-				if _, isSpec := o.Stmt.(*ast.ValueSpec); isSpec {
-					c.Okf(rule, k, pos, "initial value before the first SELECT")
-					continue
-				}
-				c.Failf(rule, k, pos, "the database tag is set to a constant by `%s`", c.Src(o.Stmt))
-				continue
-			}
-			if call, ok := CallOrigin(info, o, "strconv", "", "Atoi", 0); ok && len(call.Args) == 1 {
-				ao, ok := SoleOrigin(info, body, call.Args[0])
-				ix, _ := ast.Unparen(ao.Expr).(*ast.IndexExpr)
-				if ok && ix != nil {
-					if i0, isC := core.IntConst(info, ix.Index); isC && i0 == 0 {
-						if xo, ok := SoleOrigin(info, body, ix.X); ok {
-							if pc, ok := CallOrigin(info, xo, "pkg/redis", "", "ParseArgs", 1); ok && len(pc.Args) == 1 && IsObj(info, p.Resp)(pc.Args[0]) {
-								c.Okf(rule, k, pos, "the argument of the parsed SELECT")
-								continue
-							}
-						}
-					}
-				}
-			}
-			c.Undecidedf(rule, k, pos, "cannot trace `%s` to the SELECT argument or target.db", c.Src(o.Expr))
-		}
-	}
-}
-
-// startDb: `if ds.startDbId != 0 { enqueue select <startDbId> }` before the loop.
-func startDb(c *core.Ctx, p *Parser, e *Enq, rule, key string) {
-	info := p.Info
-	isStart := func(x ast.Expr) bool { return core.IsFieldNamed(info, x, Syncer, "startDbId") }
-	arg := selectArg(info, p.Fn.Decl.Body, e.Field["Args"])
-	cmd, _ := core.StringConst(info, e.Field["Cmd"])
-	switch {
-	case !strings.EqualFold(cmd, "select"):
-		c.Undecidedf(rule, key+"/select", e.Stmt.Pos(), "the command enqueued before the loop is not a constant SELECT")
-	case arg != nil && isStart(arg) && isStart(e.Field["Db"]):
-		c.Okf(rule, key+"/select", e.Stmt.Pos(), "SELECT <ds.startDbId>, tagged with the same database")
-	case arg != nil && (isStart(arg) || isStart(e.Field["Db"])):
-		c.Failf(rule, key+"/select", e.Stmt.Pos(), "the start SELECT names `%s` but is tagged Db `%s`: the resumed stream continues in another database than the checkpoint recorded", c.Src(arg), c.Src(e.Field["Db"]))
-	default:
-		c.Undecidedf(rule, key+"/select", e.Stmt.Pos(), "cannot read the start SELECT's argument/Db as ds.startDbId")
-	}
-	zero := func(ft cfgq.Fact) bool {
-		eq, ok := EqFact(ft, isStart, func(x ast.Expr) bool { v, ok := core.IntConst(info, x); return ok && v == 0 })
-		return ok && eq
-	}
-	notSend := func(n ast.Node) bool { return n == ast.Node(e.Stmt) }
-	w := p.G.Path(cfgq.Query{From: p.G.Entry(), Avoid: notSend, AvoidEdge: p.Fl.Edge(zero), Target: p.IsDecode})
-	if w != nil {
-		// a guard on startDbId of another form is not judged
-		anyTest := func(b *cfg.Block, s int) bool {
-			cond := cfgq.CondOf(b)
-			return cond != nil && core.MentionsField(info, cond, Syncer, "startDbId")
-		}
-		if p.G.Path(cfgq.Query{From: p.G.Entry(), Avoid: notSend, AvoidEdge: anyTest, Target: p.IsDecode}) == nil {
-			c.Undecidedf(rule, key+"/first", e.Stmt.Pos(), "the start SELECT is guarded by a test of ds.startDbId that is not the known `!= 0` form")
-			return
-		}
-	}
-	c.Check(rule, key+"/first", e.Stmt.Pos(), w == nil,
-		"when ds.startDbId != 0 the SELECT of the resumed database must be enqueued before the first source command is decoded: a stream resumed by PSYNC CONTINUE carries no SELECT of its own, so the commands would run in database 0", w...)
-}
-
-// fixedTargetDb: with target.db configured, the injected SELECT may only be
-// skipped when the *target* is known to be in that database.
-func fixedTargetDb(c *core.Ctx, p *Parser, e *Enq, rule, key string) {
-	info := p.Info
-	body := p.Fn.Decl.Body
-	k := key + "/fixed-target-db"
-	// the guard: an edge `TargetDB == v` / `TargetDB != v` (v a local) on which the enqueue is skipped
-	var guard *cfg.Block
-	var gv types.Object
-	for _, b := range p.G.CFG.Blocks {
-		if !b.Live || len(b.Succs) != 2 {
-			continue
-		}
-		for si := range b.Succs {
-			for _, ft := range p.Fl.Facts(b, si) {
-				be, ok := ast.Unparen(ft.Expr).(*ast.BinaryExpr)
-				if !ok || be.Op != token.EQL && be.Op != token.NEQ {
-					continue
-				}
-				for _, pair := range [][2]ast.Expr{{be.X, be.Y}, {be.Y, be.X}} {
-					if v := dbVar(info, pair[1]); isTargetDB(info, pair[0]) && v != nil && !v.IsField() {
-						guard, gv = b, v
-					}
-				}
-			}
-		}
-	}
-	if guard == nil {
-		// no skip guard: the SELECT must then be unconditional in its arm; nothing to judge
-		c.Okf(rule, k, e.Stmt.Pos(), "the injected SELECT is not skipped by a comparison with a local database variable")
-		return
-	}
-	eqEdge := func(ft cfgq.Fact) bool {
-		eq, ok := EqFact(ft, func(x ast.Expr) bool { return isTargetDB(info, x) }, IsObj(info, gv))
-		return ok && eq
-	}
-	// is the enqueue really skipped on the `==` edge?
-	skip := p.G.Path(cfgq.Query{From: cfgq.Point{B: guard, I: len(guard.Nodes) - 1}, After: true, Avoid: p.IsSend, Target: p.IsDecode,
-		AvoidEdge: func(b *cfg.Block, s int) bool { return b == guard && !p.Fl.Edge(eqEdge)(b, s) }})
-	if skip == nil {
-		c.Okf(rule, k, e.Stmt.Pos(), "no path skips the SELECT when the compared variable equals target.db")
-		return
-	}
-	// does the compared variable hold the *source's* database at the guard?
-	var srcAssign ast.Node
-	isAssignOf := func(n ast.Node) (ast.Expr, bool) {
-		as, ok := n.(*ast.AssignStmt)
-		if !ok || len(as.Lhs) != len(as.Rhs) {
-			return nil, false
-		}
-		for i, l := range as.Lhs {
-			if IsObj(info, gv)(l) {
-				return as.Rhs[i], true
-			}
-		}
-		return nil, false
-	}
-	for _, pt := range p.G.Points(func(n ast.Node) bool { _, ok := isAssignOf(n); return ok }) {
-		rhs, _ := isAssignOf(pt.Node())
-		o, ok := SoleOrigin(info, body, rhs)
-		if !ok {
-			continue
-		}
-		if _, ok := CallOrigin(info, o, "strconv", "", "Atoi", 0); !ok {
-			continue
-		}
-		gn := guard.Nodes[len(guard.Nodes)-1]
-		w := p.G.Path(cfgq.Query{From: pt, After: true, Target: func(n ast.Node) bool { return n == gn },
-			Avoid: func(n ast.Node) bool { _, ok := isAssignOf(n); return ok || p.IsDecode(n) }})
-		if w != nil {
-			srcAssign = pt.Node()
-		}
-	}
-	if srcAssign == nil {
-		c.Okf(rule, k, e.Stmt.Pos(), "the variable compared with target.db does not hold the source's database at the comparison")
-		return
-	}
-	// any other SELECT on the target connection at start would make the skip safe: not judged then
-	preselected := false
-	for _, b := range AllBodies(c) {
-		if b.Pkg.PkgPath != p.Fn.Pkg.PkgPath || b.Decl.Name.Name != "syncCommand" && b.Decl.Name.Name != "sendTargetCommand" {
-			continue
-		}
-		core.Inspect(b.Root(), func(n ast.Node) bool {
-			if call, ok := n.(*ast.CallExpr); ok && len(call.Args) > 0 {
-				_, isSend := ConnMethod(b.Pkg.TypesInfo, call, "Send")
-				_, isDo := ConnMethod(b.Pkg.TypesInfo, call, "Do")
-				if v, ok := core.StringConst(b.Pkg.TypesInfo, call.Args[0]); ok && (isSend || isDo) && strings.EqualFold(v, "select") {
-					preselected = true
-				}
-			}
-			return true
-		})
-	}
-	if preselected {
-		c.Undecidedf(rule, k, e.Stmt.Pos(), "the target connection is selected elsewhere; cannot judge the skipped SELECT")
-		return
-	}
-	c.Check(rule, k, e.Stmt.Pos(), false,
-		fmt.Sprintf("with target.db = k the injected `SELECT k` is skipped whenever the source's own SELECT argument (`%s`) equals k, although that says nothing about the database the target connection is in. "+
-			"Witness: target.db = 3, fresh target connection (database 0), source stream `SELECT 3; SET a 1`: no SELECT is ever sent and `SET a 1` is applied in database 0 instead of the configured database 3", c.Src(srcAssign)), skip...)
-}
-
-// ---------------------------------------------------------------------------
-// R7 filter polarity
-
-func r7(c *core.Ctx, p *Parser) {
-	const rule = "R7.polarity"
-	info := p.Info
-	body := p.Fn.Decl.Body
-	// plain verdict variables: bool locals only ever assigned true/false or an un-negated filter.* result
-	plain := map[types.Object]bool{}
-	verdict := func(o types.Object) bool {
-		if v, ok := plain[o]; ok {
-			return v
-		}
-		ok := true
-		var ref ast.Expr
-		core.Inspect(body, func(m ast.Node) bool {
-			if x, isID := m.(*ast.Ident); isID && ref == nil && core.ObjOf(info, x) == o {
-				ref = x
-			}
-			return true
-		})
-		if ref == nil {
-			ok = false
-		} else {
-			for _, or := range Origins(info, body, ref) {
-				if or.Zero {
-					continue
-				}
-				if or.Expr == nil || or.Op != 0 || or.Range {
-					ok = false
-					continue
-				}
-				if tv, has := info.Types[or.Expr]; has && tv.Value != nil {
-					continue
-				}
-				call, isCall := ast.Unparen(or.Expr).(*ast.CallExpr)
-				f := core.CalleeFunc(info, call)
-				if !isCall || f == nil || f.Pkg() == nil || !strings.HasSuffix(f.Pkg().Path(), "redis-shake/filter") {
-					ok = false
-				}
-			}
-		}
-		plain[o] = ok
-		return ok
-	}
-	positive := func(ft cfgq.Fact) bool {
-		o, val := BoolFact(info, ft)
-		return o != nil && val
-	}
-	unknown := func(ft cfgq.Fact) bool { // a test the rule cannot interpret as a plain negative verdict
-		o, val := BoolFact(info, ft)
-		if o != nil {
-			return val || !verdict(o)
-		}
-		found := false
-		ast.Inspect(ft.Expr, func(m ast.Node) bool {
-			if id, ok := m.(*ast.Ident); ok {
-				if v, ok := core.ObjOf(info, id).(*types.Var); ok && types.Identical(v.Type().Underlying(), types.Typ[types.Bool]) {
-					found = true
-				}
-			}
-			return true
-		})
-		return found
-	}
-	k := 0
-	for _, pt := range p.G.Points(p.counts(c)) {
-		if !(p.Loop.Pos() <= pt.Node().Pos() && pt.Node().End() <= p.Loop.End()) {
-			continue
-		}
-		k++
-		tn := pt.Node()
-		key := fmt.Sprintf("filtered-only-on-verdict#%d", k)
-		tgt := func(n ast.Node) bool { return n == tn }
-		wf := p.G.Path(cfgq.Query{From: pt, After: true, Avoid: p.IsDecode, Target: p.IsSend})
-		c.Check(rule, fmt.Sprintf("filtered-means-dropped#%d", k), tn.Pos(), wf == nil,
-			"a command counted as filtered must not be enqueued afterwards: on this path a command rejected by the db/command/key filter is still applied on the target", wf...)
-		w := p.G.Path(cfgq.Query{From: p.DecodePt, After: true, AvoidEdge: p.Fl.Edge(positive), Target: tgt, Avoid: p.IsDecode})
-		if w == nil {
-			c.Okf(rule, key, tn.Pos(), "the drop site is reachable only through a positive filter verdict")
-			continue
-		}
-		w2 := p.G.Path(cfgq.Query{From: p.DecodePt, After: true, AvoidEdge: p.Fl.Edge(unknown), Target: tgt, Avoid: p.IsDecode})
-		if w2 != nil {
-			c.Check(rule, key, tn.Pos(), false, "a command is dropped and counted as filtered on a path on which every filter verdict is negative (or none was consulted): commands that survive the filters are not forwarded", w2...)
-		} else {
-			c.Undecidedf(rule, key, tn.Pos(), "the drop site is reached through a condition whose polarity the rule cannot interpret")
-		}
-	}
-	if k == 0 {
-		c.Undecidedf(rule, "filtered-only-on-verdict", p.Loop.Pos(), "no filter counter site in the parser loop")
-	}
-}
-
-// ---------------------------------------------------------------------------
 // R8 ticker flush
 
 func r8(c *core.Ctx, s *Sender) {
@@ -1240,18 +515,29 @@ func r8(c *core.Ctx, s *Sender) {
 	}
 	c.Okf(rule, "arm", s.Tick.Pos(), "the sender's select has a ticker arm")
 	// period: constant, at most one second
-	tsel := ast.Unparen(s.TickChan).(*ast.SelectorExpr)
 	perOK := false
-	if o, ok := SoleOrigin(info, s.Fn.Decl.Body, tsel.X); ok {
-		if call, ok := CallOrigin(info, o, "time", "", "NewTicker", 0); ok && len(call.Args) == 1 {
+	period := func(call *ast.CallExpr) {
+		if len(call.Args) == 1 {
 			if d, ok := core.IntConst(info, call.Args[0]); ok && d > 0 && d <= 1e9 {
 				perOK = true
-				c.Okf(rule, "period", call.Pos(), "ticker period is the constant %dms", d/1e6)
+				c.Okf(rule, "period", call.Pos(), "timer period is the constant %dms", d/1e6)
 			}
 		}
 	}
+	switch x := ast.Unparen(s.TickChan).(type) {
+	case *ast.SelectorExpr: // ticker.C
+		if o, ok := SoleOrigin(info, s.Fn.Decl.Body, x.X); ok {
+			if call, ok := CallOrigin(info, o, "time", "", "NewTicker", 0); ok {
+				period(call)
+			}
+		}
+	case *ast.CallExpr: // time.After(d) / time.Tick(d)
+		if f := core.CalleeFunc(info, x); core.IsFunc(f, "time", "", "After") || core.IsFunc(f, "time", "", "Tick") {
+			period(x)
+		}
+	}
 	if !perOK {
-		c.Undecidedf(rule, "period", s.Tick.Pos(), "the ticker is not created once by time.NewTicker with a constant period of at most 1s")
+		c.Undecidedf(rule, "period", s.Tick.Pos(), "the timer arm is not driven by time.NewTicker/time.After with a constant period of at most 1s")
 	}
 	yes, no := pkgConst(c, "flushStatusYes"), pkgConst(c, "flushStatusNo")
 	if yes == nil || no == nil || s.Fs == nil {
@@ -1305,6 +591,15 @@ func r8(c *core.Ctx, s *Sender) {
 			"once the ticker arm requests a flush, sendFunc() must run before the next select: otherwise the cached commands wait for further traffic", w...)
 	}
 	if n == 0 {
+		// the arm may also flush directly
+		fsTest := func(b *cfg.Block, i int) bool { // any branch on the flush variable
+			cond := cfgq.CondOf(b)
+			return cond != nil && core.Mentions(info, cond, s.Fs)
+		}
+		if s.G.Path(cfgq.Query{From: cfgq.Point{B: s.TickBody, I: 0}, Avoid: s.IsRecv, AvoidEdge: fsTest, Target: call}) != nil {
+			c.Okf(rule, "flush-requested", s.Tick.Pos(), "the timer arm reaches sendFunc() directly")
+			return
+		}
 		c.Failf(rule, "flush-requested", s.Tick.Pos(), "the ticker arm never requests a flush (no `flush = flushStatusYes`): cached commands below the thresholds are not sent while the stream is idle")
 	}
 }
